@@ -66,7 +66,16 @@ def run(ctx):
         hsn = 0 if rng.chance(1, 10) else rng.range(1, 63)
         maio = rng.range(0, 63)
         fn = rng.choice([0, 1, 25, 26, 50, 51, 1325, 1326, 1327, 84863, 84864, H - 1, H - 2]) if rng.chance(1, 8) else rng.below(H)
-        ma = [rng.range(1, 1023) for _ in range(n)] if rng.chance(1, 2) else list(range(512, 512 + n))
+        r = rng.below(6)
+        if r < 2:
+            ma = [rng.range(1, 1023) for _ in range(n)]
+        elif r < 4:
+            ma = list(range(512, 512 + n))
+        elif r == 4:
+            # band_arfcn values as the firmware stores them: the ARFCN with the PCS (0x8000) / uplink (0x4000) flag bits
+            ma = [rng.range(0, 1023) | rng.choice([0, 0x8000, 0x4000, 0xc000]) for _ in range(n)]
+        else:
+            ma = [rng.choice([0, 1, 0x7fff, 0x8000, 0x8001, 0xfffe, 0xffff, rng.below(65536)]) for _ in range(n)]
         cases.append((hsn, maio, fn, ma))
     # C
     inp = "\n".join("%d %d %d %d %s" % (h, m, f, len(ma), " ".join(map(str, ma))) for h, m, f, ma in cases) + "\n"
